@@ -321,6 +321,10 @@ FIXED = [
     [("vmap", [("call", [("tag", "x", 1)], "jit")], 2, True), ("vmap", [("call", [("tag", "y", 2)], "checkpoint")], 3, False)],
     [("call", [("call", [("tag", "x", 1)], "checkpoint"), ("scan", [("tag", "y", 2)], 2)], "jit")],
     [("tag", "x", 1), ("call", [("tag", "x", 2)], "jit")],
+    # the call's ONLY saves sit in a scan body / namespace / map inside it (the walker must look through interpreted equations)
+    [("call", [("scan", [("tag", "x", 1)], 2)], "jit")],
+    [("ns", "a", [("call", [("other",), ("scan", [("ns", "b", [("tag", "x", 1)])], 3)], "checkpoint")])],
+    [("vmap", [("call", [("scan", [("tag", "y", 2)], 2)], "jit")], 2, False), ("call", [("call", [("scan", [("scan", [("tag", "z", 3)], 2)], 2)], "jit")], "checkpoint")],
     # saves only in the INNER body of a nest of scans (nothing saved directly in the outer body), plain and namespaced
     [("scan", [("scan", [("tag", "x", 1)], 2)], 2)],
     [("ns", "a", [("scan", [("scan", [("ns", "b", [("tag", "x", 1)])], 3)], 2)])],
